@@ -44,7 +44,7 @@ func init() {
 		MinEvals:        floor(20000, 300000),
 		MinDistinct:     floor(150, 400),
 		RequiredCells: func(string) []string {
-			cells := []string{"pristine/phaseA", "pristine/phaseB", "phaseB/sibling-burst", "phaseA", "phaseB", "phaseB/race-build", "overlap/same-token", "token/constructed", "token/decoded", "k=0", "k=1", "k=2", "k=5", "k=50", "k=300", "G=2", "G=4", "G=16", "G=64"}
+			cells := []string{"pristine/phaseA", "pristine/phaseB", "phaseB/sibling-burst", "token/proofs-root-first", "phaseA", "phaseB", "phaseB/race-build", "overlap/same-token", "token/constructed", "token/decoded", "k=0", "k=1", "k=2", "k=5", "k=50", "k=300", "G=2", "G=4", "G=16", "G=64"}
 			for _, o := range c20OpNames() {
 				cells = append(cells, "op/"+o)
 			}
@@ -148,6 +148,9 @@ func (s *c20Shared) snapshot() string {
 func c20Build(w *mon.W, k int, decoded bool) *c20Shared {
 	r := w.Rng
 	n := 1 + r.IntN(3)
+	if k == 2 {
+		n = 2 + r.IntN(2)
+	}
 	sc := chain.Conformant(r, n, 10)
 	// arguments: k entries with keys in random, unsorted order
 	argsV := ref.V{K: ref.KMap, M: []ref.KV{}}
@@ -208,7 +211,17 @@ func c20Build(w *mon.W, k int, decoded bool) *c20Shared {
 			invocation.WithMeta("text", strings.Repeat("long metadata text ", 12)),
 			invocation.WithEncryptedMetaString("secret-long", strings.Repeat("a longer secret, ", 8), bytes.Repeat([]byte{7}, 32)))
 	}
-	inv, err := invocation.New(sc.Invoker.DID, sc.Subject.DID, b.Inv.Command(), b.Cids, opts...)
+	prf := b.Cids
+	if k == 2 && len(prf) > 1 {
+		// one token in six lists its proofs root first: whatever a check makes of that, it leaves
+		// the token as it is
+		prf = append([]cid.Cid{}, b.Cids...)
+		for i, j := 0, len(prf)-1; i < j; i, j = i+1, j-1 {
+			prf[i], prf[j] = prf[j], prf[i]
+		}
+		w.Cover("token/proofs-root-first")
+	}
+	inv, err := invocation.New(sc.Invoker.DID, sc.Subject.DID, b.Inv.Command(), prf, opts...)
 	if err != nil {
 		w.Inconclusive("C20 invocation: " + err.Error())
 		return nil
@@ -242,6 +255,19 @@ func c20Build(w *mon.W, k int, decoded bool) *c20Shared {
 	}
 	for _, l := range sc.Links {
 		s.dlgPrivs = append(s.dlgPrivs, l.Iss)
+	}
+	if len(prf) > 1 && !prf[0].Equals(b.Cids[0]) {
+		// (root-first variant: the bookkeeping follows the order of the token's proof list)
+		rev := func(n int, swap func(i, j int)) {
+			for i, j := 0, n-1; i < j; i, j = i+1, j-1 {
+				swap(i, j)
+			}
+		}
+		s.dlgs = append([]*delegation.Token{}, s.dlgs...)
+		s.dlgSeal = append([][]byte{}, s.dlgSeal...)
+		rev(len(s.dlgs), func(i, j int) { s.dlgs[i], s.dlgs[j] = s.dlgs[j], s.dlgs[i] })
+		rev(len(s.dlgPrivs), func(i, j int) { s.dlgPrivs[i], s.dlgPrivs[j] = s.dlgPrivs[j], s.dlgPrivs[i] })
+		rev(len(s.dlgSeal), func(i, j int) { s.dlgSeal[i], s.dlgSeal[j] = s.dlgSeal[j], s.dlgSeal[i] })
 	}
 	if decoded {
 		d, _, err := invocation.FromSealed(sealed)
